@@ -95,13 +95,56 @@ fn torus(nu: usize, nv: usize) -> (Vec<Point3>, Vec<[u32; 3]>) {
     (v, f)
 }
 
-pub const CLOSED: [&str; 11] = ["box1", "box2", "box3", "prism3", "prism6", "cyl6", "cyl16", "sphere1", "sphere2", "torus", "tetra"];
+pub const CLOSED: [&str; 14] = ["box1", "box2", "box3", "prism3", "prism6", "cyl6", "cyl16", "sphere1", "sphere2", "torus", "tetra", "lprism", "twoboxes", "hollow"];
 pub const OPEN: [&str; 6] = ["tube8", "quad", "hf0", "hf1", "hf2", "hf3"];
+
+/// A polygon with a given triangulation (counter-clockwise triangles over its vertices), extruded to height h
+fn extrude(poly: &[(f64, f64)], tris: &[[u32; 3]], h: f64) -> (Vec<Point3>, Vec<[u32; 3]>) {
+    let k = poly.len() as u32;
+    let mut v: Vec<Point3> = poly.iter().map(|p| Point3::new(p.0, p.1, 0.0)).collect();
+    v.extend(poly.iter().map(|p| Point3::new(p.0, p.1, h)));
+    let mut f = Vec::new();
+    for t in tris {
+        f.push([t[0], t[2], t[1]]);
+        f.push([t[0] + k, t[1] + k, t[2] + k]);
+    }
+    for i in 0..k {
+        let j = (i + 1) % k;
+        f.push([i, j, j + k]);
+        f.push([i, j + k, i + k]);
+    }
+    (v, f)
+}
 
 pub fn build(name: &str) -> (Vec<Point3>, Vec<[u32; 3]>, bool, bool) {
     // (vertices, faces, watertight, convex)
     let of = |m: Mesh| (m.vertices().to_vec(), m.faces().to_vec());
     match name {
+        "lprism" => {
+            // an L-shaped outline (with the vertex that keeps the triangulation free of T-junctions) extruded
+            let (v, f) = extrude(&[(0.0, 0.0), (3.0, 0.0), (3.0, 1.0), (1.0, 1.0), (1.0, 3.0), (0.0, 3.0), (0.0, 1.0)], &[[0, 1, 2], [0, 2, 3], [0, 3, 6], [6, 3, 4], [6, 4, 5]], 2.0);
+            (v, f, true, false)
+        }
+        "twoboxes" => {
+            // two separate solids in one mesh
+            let (mut v, mut f) = of(Mesh::create_box(2.0, 3.0, 4.0, true));
+            let (v2, f2) = of(Mesh::create_box(1.0, 1.0, 1.0, true));
+            let off = v.len() as u32;
+            v.extend(v2.iter().map(|p| p + Vector3::new(5.0, 1.0, 1.5)));
+            f.extend(f2.iter().map(|t| [t[0] + off, t[1] + off, t[2] + off]));
+            (v, f, true, false)
+        }
+        "hollow" => {
+            // a box with a box-shaped cavity (the inner surface wound the other way)
+            let (mut v, mut f) = of(Mesh::create_box(4.0, 4.0, 4.0, true));
+            let (v2, f2) = of(Mesh::create_box(2.0, 1.5, 1.0, true));
+            let off = v.len() as u32;
+            let c0 = v.iter().fold(Vector3::zeros(), |a, p| a + p.coords) / v.len() as f64;
+            let c2 = v2.iter().fold(Vector3::zeros(), |a, p| a + p.coords) / v2.len() as f64;
+            v.extend(v2.iter().map(|p| p + (c0 - c2) + Vector3::new(0.3, -0.2, 0.1)));
+            f.extend(f2.iter().map(|t| [t[0] + off, t[2] + off, t[1] + off]));
+            (v, f, true, false)
+        }
         "box1" => {
             let (v, f) = of(Mesh::create_box(2.0, 3.0, 4.0, true));
             (v, f, true, true)
@@ -638,7 +681,7 @@ fn isolated(tier: Tier, label: &str, n: usize, case_of: &dyn Fn(usize) -> Val) -
 
 pub fn run(tier: Tier) -> i32 {
     let mut cx = Ctx::new("C13", tier, "exploration");
-    cx.rule = "meshes: 3 boxes, 3- and 6-gon prisms, capped 6- and 16-gon cylinders, octahedral spheres (1 and 2 subdivisions), 8x6 torus, tetrahedron (watertight) and open tube, quad, 4 height fields x 3 (thorough 5) poses x 32 plane normals (26 lattice + 6 skew) x offset fractions (-0.1 .. 1.1 and absolute offsets just off a vertex) x curve tolerance {default, 5e-3, 0.05}; each (mesh, plane) pair is classified by a reference computation before the call: pairs whose section polyline would be open (a boundary edge straddles the plane) form the open-section class, probed by 3 representatives; every sweep runs in worker processes limited to 3 GB of address space with a 30 s per-case watchdog, so that an abort or runaway allocation inside the library or parry is reported for the case in progress instead of ending the check. distinct = distinct (mesh, pose, plane) cases".into();
+    cx.rule = "meshes: 3 boxes, 3- and 6-gon prisms, capped 6- and 16-gon cylinders, octahedral spheres (1 and 2 subdivisions), 8x6 torus, tetrahedron, an extruded L, two separate boxes in one mesh, a box with a box-shaped cavity (watertight) and open tube, quad, 4 height fields x 3 (thorough 5) poses x 32 plane normals (26 lattice + 6 skew) x offset fractions (-0.1 .. 1.1 and absolute offsets just off a vertex) x curve tolerance {default, 5e-3, 0.05}; each (mesh, plane) pair is classified by a reference computation before the call: pairs whose section polyline would be open (a boundary edge straddles the plane) form the open-section class, probed by 3 representatives; every sweep runs in worker processes limited to 3 GB of address space with a 30 s per-case watchdog, so that an abort or runaway allocation inside the library or parry is reported for the case in progress instead of ending the check. distinct = distinct (mesh, pose, plane) cases".into();
     cx.bounds = json!({"meshes": CLOSED.len() + OPEN.len(), "poses": tier.pick(3, 5), "normals": normals().len(), "fractions": FRACS, "worker_address_space_kb": WORKER_MEM_KB, "per_case_watchdog_s": ITEM_TIMEOUT_S});
     cx.require(&["plane nipping a corner or shaving a sliver", "plane crossing the mesh", "plane missing the mesh", "plane through a vertex (degenerate probe)", "open-section class (not executed in-process)", "section with a coarse curve tolerance", "section by the plane with inverted normal", "section curve moved rigidly"]);
     cx.assume("planes within 1e-5 of a mesh vertex are degenerate probes: only 'returns, vertices on the plane and on the surface' is judged there");
